@@ -200,6 +200,53 @@ def eval_typeless(ver):
     return n, bad
 
 
+# ---------------------------------------------------------------- the type named by xsi:type governs the attributes too
+GOV = f'''<xs:schema {XS}>
+ <xs:simpleType name="S"><xs:restriction base="xs:int"><xs:maxInclusive value="9"/></xs:restriction></xs:simpleType>
+ <xs:complexType name="CT"><xs:attribute name="k" type="xs:int" use="required"/></xs:complexType>
+ <xs:complexType name="DT"><xs:complexContent><xs:extension base="CT"><xs:attribute name="m" type="xs:int"/></xs:extension></xs:complexContent></xs:complexType>
+ <xs:complexType name="ST"><xs:simpleContent><xs:extension base="xs:int"><xs:attribute name="u" type="xs:int"/></xs:extension></xs:simpleContent></xs:complexType>
+ <xs:element name="open"/><xs:element name="anyT" type="xs:anyType"/><xs:element name="c" type="CT"/><xs:element name="i" type="xs:int"/><xs:element name="sc" type="ST"/>
+ <xs:element name="r"><xs:complexType><xs:choice maxOccurs="unbounded"><xs:element ref="open"/><xs:element ref="anyT"/><xs:element ref="c"/><xs:element ref="i"/><xs:element ref="sc"/></xs:choice></xs:complexType></xs:element>
+</xs:schema>'''
+# type -> (required attributes, optional attributes, content rule); None = anything goes (xs:anyType: lax wildcard, mixed content)
+GOV_TYPES = {'xs:anyType': None, 'xs:int': (set(), set(), 'int'), 'S': (set(), set(), 'small'), 'CT': ({'k'}, set(), 'empty'), 'DT': ({'k'}, {'m'}, 'empty'), 'ST': (set(), {'u'}, 'int')}
+GOV_BASE = {'xs:int': 'xs:anyType', 'S': 'xs:int', 'CT': 'xs:anyType', 'DT': 'CT', 'ST': 'xs:int', 'xs:anyType': None}
+GOV_ELEMS = {'open': 'xs:anyType', 'anyT': 'xs:anyType', 'c': 'CT', 'i': 'xs:int', 'sc': 'ST'}
+
+
+def gov_docs():
+    for tag, declared in GOV_ELEMS.items():
+        for xt in [None] + list(GOV_TYPES):
+            for n in range(16):
+                attrs = [a for j, a in enumerate('kmuz') if n >> j & 1]
+                for content in ('', '5', '12'):
+                    gov = xt or declared
+                    t = gov; ok = False
+                    while t is not None:
+                        if t == declared: ok = True
+                        t = GOV_BASE[t]
+                    rule = GOV_TYPES[gov]
+                    if ok and rule is not None:
+                        req, opt, c = rule
+                        ok = req <= set(attrs) <= req | opt and {'empty': content == '', 'int': content != '', 'small': content == '5'}[c]
+                    d = f'<{tag} {XSI}' + (f' xmlns:xs="http://www.w3.org/2001/XMLSchema" xsi:type="{xt}"' if xt else '') + ''.join(f' {a}="1"' for a in attrs) + f'>{content}</{tag}>'
+                    yield d, ok
+
+
+def eval_gov(ver):
+    """the named type governs the whole element: its attribute uses as well as its content (a simple type admits no attribute, whatever the declared type admits)"""
+    s = _cls(ver)(GOV); bad = []; n = 0
+    for d, exp in gov_docs():
+        for wrap in (False, True):
+            n += 1
+            dd = f'<r>{d}</r>' if wrap else d
+            try: got = s.is_valid(dd)
+            except Exception as e: got = 'raised ' + type(e).__name__
+            if got != exp and len(bad) < 6: bad.append(dict(ver=ver, doc=dd, got=got, exp=exp))
+    return n, bad
+
+
 def run(tier, seed, open_findings):
     allc = list(configs())
     sel, exhaustive = part(allc, tier, seed, 6)
@@ -215,6 +262,9 @@ def run(tier, seed, open_findings):
     tl = [eval_typeless(ver) for ver in ('1.0', '1.1')]
     out.append(result('C07.typeless_substitution_members', 'members without a type of a simple-typed and of a complex-typed head (one and two levels), as root and in place of the head x 10 contents x 2 classes', sum(n for n, _ in tl),
                       [dict(case=dict(typeless=True, ver=b['ver'], doc=b['doc']), observed=dict(valid=b['got']), required=dict(valid=b['exp'])) for _, bs in tl for b in bs], exhaustive=True))
+    gv = [eval_gov(ver) for ver in ('1.0', '1.1')]
+    out.append(result('C07.xsi_type_governs_attributes', '5 declarations (typeless, xs:anyType, complex, xs:int, simple content) x (no xsi:type, 6 named types) x 16 attribute sets x 3 contents, as root and as a child x 2 classes',
+                      sum(n for n, _ in gv), [dict(case=dict(gov=True, ver=b['ver'], doc=b['doc'], exp=b['exp']), observed=dict(valid=b['got']), required=dict(valid=b['exp'])) for _, bs in gv for b in bs], exhaustive=True))
     out.append(result('C07.substitution_groups', f'{len(sjobs)} (class, head block, abstract member, type block) configurations x 12 instances', sum(r['cases'] for r in sres), sf, exhaustive=True,
                       samples=[dict(doc='<r><m2>...</m2></r>', head_block='substitution')]))
     ajobs = list(alt_docs())
@@ -229,6 +279,8 @@ def replay(check_name, case):
     if case.get('typeless'):
         n, bad = eval_typeless(case['ver']); mine = [b for b in bad if b['doc'] == case['doc']]; return dict(ok=not mine, observed=mine[:1], required='validated against the type of the head')
     import xmlschema
+    if case.get('gov'):
+        got = _cls(case['ver'])(GOV).is_valid(case['doc']); return dict(ok=got == case['exp'], observed=dict(valid=got), required=dict(valid=case['exp']))
     if case.get('alt'):
         r = eval_alt((case['doc'], case['exp'])); return dict(ok=r is None, observed=r, required='governing type = first alternative whose test holds')
     if check_name == 'C07.substitution_groups':
